@@ -209,7 +209,10 @@ def run_verus(unit_names, canary=False, seed=None, strict=False, keep=None, extr
                 res.diags.append(dg)
             elif dg.get('level') == 'error' and 'aborting' not in dg.get('message', ''):
                 res.diags.append(dg)
+        compile_errors = [dg for dg in res.diags if dg.get('code')]
         vr = (res.json or {}).get('verification-results')
+        if compile_errors:
+            res.json = None
         if res.json is None or vr is None or vr.get('encountered-vir-error'):
             res.fatal = 'verus did not reach verification:\n' + '\n'.join(
                 (dg.get('rendered') or dg.get('message', '')) for dg in res.diags[:6]) + (p.stderr[-1500:] if not res.diags else '')
